@@ -55,7 +55,15 @@ func seedFor(base uint64, idx int64) uint64 {
 	return simrt.Derive(base*0x9e3779b97f4a7c15+uint64(idx), 77)
 }
 
+var (
+	curSeed     uint64
+	curIdx      int64
+	curStride   int64 = 1
+	curScenario *Scenario
+)
+
 func runOne(prop string, pd *propDef, seed uint64, idx int64, tier string, sc *Scenario) (*Outcome, *RunData) {
+	curSeed, curIdx, curScenario = seed, idx, sc
 	if pd.custom != nil && sc == nil {
 		o := pd.custom(seed, tier)
 		o.Seed, o.Index, o.Prop = seed, idx, prop
@@ -66,6 +74,7 @@ func runOne(prop string, pd *propDef, seed uint64, idx int64, tier string, sc *S
 		sc = pd.gen(g, tier)
 		sc.Prop = prop
 		sc.Seed = seed
+		curScenario = sc
 		if tier == "thorough" && sc.Runner == "" && prop != "C09" && prop != "C12" && g.pct(10) {
 			// thorough tier: every atomic operation of every file is a scheduling point in a tenth of the runs
 			sc.Sim.AtomicAll = true
@@ -173,6 +182,29 @@ func main() {
 		fmt.Fprintf(os.Stderr, "unknown property %q\n", *prop)
 		os.Exit(2)
 	}
+	if *prop == "C07" {
+		// C07 includes "eviction always terminates": a task that stays between two scheduling points
+		// for 45 s of real time (a policy step takes microseconds) is reported, the process ends
+		go func() {
+			last, since := int64(-1), time.Now()
+			for {
+				time.Sleep(3 * time.Second)
+				cur := simrt.StepsPeek()
+				if cur < 0 || cur != last {
+					last, since = cur, time.Now()
+					continue
+				}
+				if time.Since(since) > 45*time.Second {
+					o := &Outcome{Seed: curSeed, Index: curIdx, Prop: "C07", Family: "stuck", Verdict: "violation", Kernel: "stuck", Nontrivial: true,
+						Violations: []Violation{{"C07/no-termination/task-spinning-without-scheduling-point", "a policy step did not finish within 45 s of real time (task " + simrt.CurNamePeek() + "): eviction / resizing does not terminate"}}, Scenario: curScenario}
+					b, _ := json.Marshal(o)
+					os.Stdout.Write(append(b, '\n'))
+					fmt.Fprintf(os.Stderr, "WORKER-DONE next=%d runs=%d\n", curIdx+curStride, 1)
+					os.Exit(0)
+				}
+			}
+		}()
+	}
 	w := bufio.NewWriter(os.Stdout)
 	if *out != "" {
 		f, err := os.Create(*out)
@@ -221,6 +253,7 @@ func main() {
 
 	start := time.Now()
 	done := int64(0)
+	curStride = *stride
 	for i := int64(0); i < *count; i++ {
 		idx := *from + i**stride
 		seed := seedFor(*base, idx)
